@@ -65,18 +65,26 @@ def _eval_inner(expr):
         e = expressions.parse(expr)
     except Exception:
         return fails
-    try:
-        res = e.eval(locals=_env())
-        err = None
-    except Exception as ex:
-        res, err = None, ex
+    # the same parsed expression is evaluated several times (match expressions are evaluated once per candidate pair of
+    # nodes): every evaluation must refuse, not only the first
+    n_eval = 0
+    for _ in range(3):
+        n_eval += 1
+        try:
+            res = e.eval(locals=_env())
+            err = None
+        except Exception as ex:
+            res, err = None, ex
+        if READS:
+            break
     reads = list(READS)
     if reads:
         via = 'format-string' if ('format' in expr) else 'other'
         if set(reads) <= {'__origin__', '__qualname__', '__module__', '__args__', '__name__', '__parameters__', '__typing_subst__',
                           '__typing_unpacked_tuple_args__', '__mro_entries__', '__typing_is_unpacked_typevartuple__'}:
             via = 'generic-alias'
-        fails.append({'what': f"expression {expr!r} read underscore attribute(s) {sorted(set(reads))} of a supplied object",
+        fails.append({'what': f"expression {expr!r} read underscore attribute(s) {sorted(set(reads))} of a supplied object"
+                              + (f" (on evaluation #{n_eval} of the same parsed expression)" if n_eval > 1 else ''),
                       'class': f'c19-private-read:{via}', 'input': {'expr': expr}, 'replay': {'kind': 'expr', 'expr': expr}})
     return fails
 
